@@ -595,7 +595,7 @@ func cmdCheck(args []string) int {
 	for _, fixed := range []string{
 		"govc itself (go/ssa -> SMT encoder, contract parser) - guarded by selftest corpus under /verif/selftest",
 		"go/ssa (x/tools v0.29.0) as the meaning of the Go source",
-		"SMT solvers z3 4.8.12, z3 5.1.0, cvc5 1.0.3 (an obligation counts as discharged when one answers unsat)",
+		"SMT solvers z3 4.8.12, z3 5.1.0, cvc5 1.0.3 (an obligation counts as discharged when z3 4.8.12 or cvc5 answers unsat, or z3 5.1.0 answers unsat in two runs with different seeds; the z3 solvers get the query without set-logic)",
 		"machine integers treated as mathematical integers (no overflow)",
 		"float64 and strconv uninterpreted",
 		"strings: abstract totally ordered sort with uninterpreted concatenation",
